@@ -215,6 +215,8 @@ static void genCore(Core & c, Rng & rng, int kind, bool witness, unsigned maxSte
     if (ugly) c.gamma = ug[rng.below(3)];
     double unit = ugly ? (rng.coin() ? 0.1 : 1.0 / 3.0) : 0.25;
     if (ugly) std::printf("#stat ugly 1\n");
+    // large magnitudes (still dyadic): rewards in multiples of 2^18
+    if (!witness && !ugly && rng.coin(1, 10)) { unit = 262144.0; std::printf("#stat large_rewards 1\n"); }
     int rmode = witness ? 2 : (int)rng.below(4);       // 0 mixed, 1 all negative, 2 all positive, 3 mostly zero
     double lo = rmode == 2 ? 0.25 : -4.0, hi = rmode == 1 ? -0.25 : 4.0;
     c.numA.assign(c.nb, c.Amax); c.term.assign(c.nb, 0);
@@ -251,7 +253,7 @@ static void putCore(Line & l, const Core & c, int kind) {
     }
 }
 
-struct CallPlan { unsigned horizon, iters; };
+struct CallPlan { unsigned horizon, iters; double expl = 1.0; size_t bs = 1; };
 
 template <class PlannerT, class FreshF, class AdvF, class DumpF, class HasF>
 static void episode(Core & c, int kind, Rng & rng, const std::vector<CallPlan> & plan, double expl, size_t extraParam,
@@ -263,8 +265,14 @@ static void episode(Core & c, int kind, Rng & rng, const std::vector<CallPlan> &
     bool mixed = false;        // root particles spread over several layers (after a uniform restart)
     size_t budget = 0, lastA = 0;
     for (size_t ci = 0; ci < plan.size(); ++ci) {
-        auto [h, it] = plan[ci];
+        unsigned h = plan[ci].horizon, it = plan[ci].iters;
         pl.setIterations(it);
+        // the rarely used setters, between calls: exploration constant (any sign) and, for the particle planners, the belief size
+        pl.setExploration(plan[ci].expl);
+        if constexpr (requires { pl.setBeliefSize(size_t{}); }) pl.setBeliefSize(plan[ci].bs);
+        if (rh) rh->beliefParam = plan[ci].bs;
+        if (ci > 0 && plan[ci].expl != plan[ci - 1].expl) std::printf("#stat exploration_changed_between_calls 1\n");
+        if (ci > 0 && pomdp && plan[ci].bs != plan[ci - 1].bs) std::printf("#stat belief_size_changed_between_calls 1\n");
         size_t ret;
         if (ci == 0) {
             std::vector<size_t> support{sTrue};
@@ -313,7 +321,7 @@ static void episode(Core & c, int kind, Rng & rng, const std::vector<CallPlan> &
             if (!hit && pomdp) mixed = true;
         }
         lastA = ret;
-        run << h << it << ret;
+        run << h << it << ret << plan[ci].expl << plan[ci].bs;
         putLog(run, c.log);
         size_t count = 0; Line d; Path p; dump(d, p, count);
         run << count << d.os.str();
@@ -402,8 +410,16 @@ void verif::verif_case(Rng & rng, long idx, const std::string & tier) {
     c.entropy = kind == 5;
     c.rng = Rng(rng.next());
     AIToolbox::Seeder::setRootSeed((unsigned)rng.next());   // the planners seed their own engine from the global Seeder: make the case replayable
-    static const double es[] = {1.0, 0.5, 4.0, 100.0, 0.0};
-    double expl = witness ? 1.0 : es[rng.below(5)];
+    static const double es[] = {1.0, 0.5, 4.0, 100.0, 0.0, -1.0};
+    double expl = witness ? 1.0 : es[rng.below(6)];
+    {   // per-call settings: mostly constant over the episode, sometimes changed through the setters
+        size_t bs0 = 1 + rng.below(6);
+        for (size_t i = 0; i < plan.size(); ++i) {
+            plan[i].expl = (i > 0 && !witness && rng.coin(1, 4)) ? es[rng.below(6)] : (i > 0 ? plan[i - 1].expl : expl);
+            plan[i].bs = (i > 0 && !witness && rng.coin(1, 4)) ? 1 + rng.below(6) : (i > 0 ? plan[i - 1].bs : bs0);
+        }
+        if (plan[0].expl < 0) std::printf("#stat exploration_negative 1\n");
+    }
     std::printf("#stat kind%d 1\n#stat layered%d 1\n", kind, (int)c.layered);
     if (kind == 0) {
         GMFixed m; m.c = &c; AIToolbox::MDP::MCTS<GMFixed> pl(m, 1, expl);
